@@ -51,6 +51,33 @@ func runCLI(c Case) string {
 		stdin = []byte(input)
 		outPath = filepath.Join(dir, "out.sql")
 		args = []string{"-o", outPath}
+	case strings.HasPrefix(mode, "filesE:"), strings.HasPrefix(mode, "filesD:"):
+		// filesE:k  k pieces with an empty file before, between and after them
+		// filesD:k  k pieces, the middle one read from standard input through "-"
+		var k int
+		fmt.Sscanf(mode[7:], "%d", &k)
+		if k < 2 {
+			k = 2
+		}
+		empty := filepath.Join(dir, "empty.pql")
+		os.WriteFile(empty, nil, 0o644)
+		for i := 0; i < k; i++ {
+			a, b := len(input)*i/k, len(input)*(i+1)/k
+			if mode[5] == 'E' {
+				args = append(args, empty)
+			}
+			if mode[5] == 'D' && i == k/2 {
+				stdin = []byte(input[a:b])
+				args = append(args, "-")
+				continue
+			}
+			p := filepath.Join(dir, fmt.Sprintf("in%d.pql", i))
+			os.WriteFile(p, []byte(input[a:b]), 0o644)
+			args = append(args, p)
+		}
+		if mode[5] == 'E' {
+			args = append(args, empty)
+		}
 	case strings.HasPrefix(mode, "files:"):
 		var k int
 		fmt.Sscanf(mode, "files:%d", &k)
@@ -150,11 +177,13 @@ func genCLICases(tier string, emit func(op string, fields ...string)) {
 		"let x = 1", "let x = 1\n", "let bad = y;\nT | take bad;\n", "T | bogus;\nT | count;\n", "T !; U\n", "T ! U;\nV;\n",
 		"T | where a == ';'\n;\n", "T // c ; not a split\n| count;\n", "T |\nwhere a\n== 1;", "a;b;c", "a;;b", "T;\r\nU;\r\n",
 		"let n = 1;\nlet n = n + 1;\nT | take n;\nlet n = 'x';\nT | take n", "T | where `a\n`;\nU;", "T | where 'x\n';U",
+		"let t = 1; let l = t + 1; let t = 10; T | where a == l;\n", "let n = 10;\nlet n = n * 2;\nT | where b == n;\nT | count;\n",
+		"let a = 1;\nlet a = bad;\nT | take a;\n", "T | count;\nlet x = 1\n", "T | bogus;\nU | count", "T | count;\nU | bogus", "letter | count;\nlet\tx = 2;\nT | take x;",
 		"T | count; // trailing\n", "// only\n// comments\n", "let a = 1; let b = a; T | where x == b; U | take b",
 	}
-	modes := []string{"stdin", "stdin", "file", "files:2", "files:3", "outfile"}
+	modes := []string{"stdin", "stdin", "file", "files:2", "files:3", "outfile", "filesE:2", "filesD:3", "filesD:2", "files:7"}
 	for _, s := range corpus {
-		for _, m := range []string{"stdin", "file", "files:2"} {
+		for _, m := range []string{"stdin", "file", "files:2", "filesE:2", "filesD:2"} {
 			emit("CLI", hexs(s), m)
 		}
 	}
